@@ -492,6 +492,10 @@ class DeepCopyMethod(MethodDescriptor):
             return self
         new = self.__class__.__new__(self.__class__)
         for attr, value in self.__dict__.items():
+            if attr == "__spec_class_initializing__":
+                # The constructor of `self` may still be running (a copy made
+                # in `__post_init__`); that of the copy is not.
+                continue
             if inspect.ismethod(value) and value.__self__ is self:
                 # A method of the instance itself: the copy gets the same
                 # method bound to the copy (deep-copying it would recurse).
